@@ -150,6 +150,17 @@ func rlkLeaf(c *engine.Chooser, name string, k cfg) {
 		return
 	}
 
+	if inst == 0 && hist == 0 {
+		if ov := mp.Overlap([]interface{}{"key", rlk}, []interface{}{"round 1", &agg1, "round 2", &agg2, "protocol", &protos[0]}); ov != "" {
+			c.Fail(sig+"/GenRelinearizationKey/output-aliases-input-or-callee", "%s", ov)
+			return
+		}
+		if ov := mp.Overlap([]interface{}{"round-two share of party 0", &r2[0]}, []interface{}{"protocol", &protos[0], "ephemeral key", eph[0], "aggregated round 1", &agg1}); ov != "" && k.n > 1 {
+			c.Fail(sig+"/GenShareRoundTwo/output-aliases-input-or-callee", "%s", ov)
+			return
+		}
+		c.Cover("alias", "key-vs-inputs-and-callee")
+	}
 	// functional oracle: relinearisation of a noiseless degree-2 ciphertext under the ideal secret.
 	// Key noise of the protocol: rlk0 + rlk1*s = P*w*s^2 + s*e0 + u*e1 + e2 with s, u sums of N ternary
 	// polynomials and e0, e1, e2 sums of N errors: sup <= 2*N_ring*N*(N*B) + N*B.
